@@ -15,6 +15,7 @@ ID = "C07"
 LEVEL = "exploration"
 CONTRACTS = True  # icontract postconditions on AlignedStream.read/peek/seek fire during this workload too
 STEP_BUDGET = 30_000_000
+HANDLE_CLOSE_CHECK = True
 ANCHOR_FILES = [f"dissect/hypervisor/disk/{m}.py" for m in ("vhdx", "vmdk", "hdd", "qcow2", "vdi")]
 RULE = (
     "Chains of depth 1..4 built from layered content models on real temp directories: VHDX differencing (partially "
